@@ -36,7 +36,7 @@ import (
 
 func init() { streams["c14"] = runC14 }
 
-const c14deadline = 3 * time.Second
+const c14deadline = 10 * time.Second // a read takes microseconds; generous so that machine load cannot fake a hang
 
 type c14out struct{ class, sum string }
 
@@ -760,6 +760,9 @@ func runC14(c *Ctx) {
 		ntri := 1 + c.Rng.Intn(5)
 		if k%5 == 4 {
 			nv, ntri = 20+c.Rng.Intn(30), 10+c.Rng.Intn(30)
+		}
+		if c.Tier == "thorough" && k%23 == 22 {
+			nv, ntri = 80+c.Rng.Intn(70), 60+c.Rng.Intn(90)
 		}
 		normals, colors, uvs := c.Rng.Intn(2) == 0, c.Rng.Intn(2) == 0, c.Rng.Intn(2) == 0
 
